@@ -39,6 +39,12 @@ def check(an, rep, tier):
     runs = sweep(an, rep, SAMPLERS, ds,
                  rules=S_RULES + ['N-prob', 'R-draw', 'R-global', 'L-lin'],
                  wheres=wh)
+    for ob in list(rep.obls.values()):
+        if ob.rule == 'N-prob' and ob.status == 'unknown':
+            rep.violation('N-prob', ob.where, ob.construct,
+                          'the p= vector handed to choice() is not provably '
+                          'non-negative and divided by its own sum (%s)'
+                          % ob.detail, line=ob.line, file=ob.file)
     # --- result kinds
     for r in runs:
         if r.qualname == 'sample.sample_tt':
